@@ -47,7 +47,7 @@ pub struct Seed {
 
 pub const VALS: [&str; 10] = ["0", "1", "2^31-1", "2^31", "2^32-1", "field-1", "field+1", "file_len", "file_len-1", "file_len+1"];
 /// value subset of the 2-deviation space
-pub const VALS2: [usize; 5] = [0, 4, 3, 6, 7];
+pub const VALS2: [usize; 6] = [0, 4, 2, 3, 6, 7];
 
 pub fn value(vi: usize, orig: u32, file_len: usize) -> u32 {
     match vi {
@@ -351,4 +351,98 @@ pub fn chunk_sites(seed_bytes: &[u8], c: &Chunk, name: &str, head: usize, header
         }
         o += 4;
     }
+}
+
+// ------------------------------------------------------------------ seed (de)serialisation
+
+fn put_u64(o: &mut Vec<u8>, v: u64) {
+    o.extend_from_slice(&v.to_le_bytes());
+}
+fn put_bytes(o: &mut Vec<u8>, b: &[u8]) {
+    put_u64(o, b.len() as u64);
+    o.extend_from_slice(b);
+}
+struct Rd<'a>(&'a [u8], usize);
+impl Rd<'_> {
+    fn u64(&mut self) -> u64 {
+        let v = u64::from_le_bytes(self.0[self.1..self.1 + 8].try_into().unwrap());
+        self.1 += 8;
+        v
+    }
+    fn bytes(&mut self) -> Vec<u8> {
+        let n = self.u64() as usize;
+        let v = self.0[self.1..self.1 + n].to_vec();
+        self.1 += n;
+        v
+    }
+    fn string(&mut self) -> String {
+        String::from_utf8(self.bytes()).unwrap()
+    }
+}
+
+/// seeds are generated in a short-lived child process (see `seeds_in_child`) and shipped as bytes
+pub fn encode_seeds(v: &[Seed]) -> Vec<u8> {
+    let mut o = vec![];
+    put_u64(&mut o, v.len() as u64);
+    for s in v {
+        put_bytes(&mut o, s.fmt.as_bytes());
+        put_bytes(&mut o, s.name.as_bytes());
+        put_bytes(&mut o, &s.bytes);
+        put_u64(&mut o, s.aux as u64);
+        put_u64(&mut o, s.sites.len() as u64);
+        for x in &s.sites {
+            put_u64(&mut o, x.off as u64);
+            put_bytes(&mut o, x.name.as_bytes());
+            put_u64(&mut o, x.enc.map(|e| e as u64 + 1).unwrap_or(0));
+            put_u64(&mut o, x.header as u64);
+        }
+        put_u64(&mut o, s.enc.len() as u64);
+        for e in &s.enc {
+            put_u64(&mut o, e.start as u64);
+            put_u64(&mut o, e.len as u64);
+            put_u64(&mut o, e.key as u64);
+        }
+        put_u64(&mut o, s.chunks.len() as u64);
+        for c in &s.chunks {
+            put_u64(&mut o, c.off as u64);
+            put_u64(&mut o, c.total as u64);
+            put_bytes(&mut o, c.magic.as_bytes());
+            put_u64(&mut o, c.parent.map(|p| p as u64 + 1).unwrap_or(0));
+        }
+        put_u64(&mut o, s.extra.len() as u64);
+        for e in &s.extra {
+            put_bytes(&mut o, e);
+        }
+    }
+    o
+}
+pub fn decode_seeds(b: &[u8]) -> Vec<Seed> {
+    let mut r = Rd(b, 0);
+    let n = r.u64();
+    let mut v = vec![];
+    for _ in 0..n {
+        let mut s = Seed { fmt: r.string(), name: r.string(), bytes: r.bytes(), aux: r.u64() as u32, ..Default::default() };
+        for _ in 0..r.u64() {
+            let off = r.u64() as usize;
+            let name = r.string();
+            let e = r.u64();
+            let header = r.u64() != 0;
+            s.sites.push(Site { off, name, enc: if e == 0 { None } else { Some(e as usize - 1) }, header });
+        }
+        for _ in 0..r.u64() {
+            s.enc.push(EncRegion { start: r.u64() as usize, len: r.u64() as usize, key: r.u64() as u32 });
+        }
+        for _ in 0..r.u64() {
+            let off = r.u64() as usize;
+            let total = r.u64() as usize;
+            let magic = r.string();
+            let p = r.u64();
+            s.chunks.push(Chunk { off, total, magic, parent: if p == 0 { None } else { Some(p as usize - 1) } });
+        }
+        for _ in 0..r.u64() {
+            s.extra.push(r.bytes());
+        }
+        v.push(s);
+    }
+    v
 }
